@@ -5,7 +5,9 @@ import sys
 
 from vf import loader
 
-loader.install()
+PLAIN = os.environ.get('VF_PLAIN') == '1'      # replay mode: the unmodified package, no hook, no StructShim
+if not PLAIN:
+    loader.install()
 
 from dliswriter.utils.internal.internal_enums import RepresentationCode as RepC  # noqa: E402
 from vf.stubs.rope import Rope, StructShim  # noqa: E402
@@ -17,6 +19,8 @@ SHARD_N = int(os.environ.get('VF_SHARD_N', '1'))
 
 REAL_FORMATS = {}
 for _m in RepC.__members__.values():
+    if PLAIN:
+        break
     if _m.converter is not None and not isinstance(_m.converter, StructShim):
         REAL_FORMATS[_m.name] = _m.converter.format
         _m.converter = StructShim(_m.converter.format)
